@@ -1,3 +1,245 @@
-From PV Require Import Base.MachineInt Model.C20Threads.
-Theorem C20_stub : True. Proof. exact I. Qed.
-Print Assumptions C20_stub.
+(* C20 — thread count and scheduling never change results.
+   Pinned statements, `exact` proofs, Print Assumptions, and Examples showing the hypotheses are satisfiable.
+   Model: Model/C20Threads.v (chunking of both call sites, small-step interleaving semantics, scratch split).
+   All statements hold for EVERY item count >= 1 and thread count >= 1 (threads not dividing / exceeding the items
+   included); items = 0 or threads = 0 make the Rust code panic (chunks_mut(0), division by zero): stated as guards. *)
+From PV Require Import Base.MachineInt Model.C20Threads Proofs.C20Partition Proofs.C20Sched Proofs.C20Scratch.
+From Coq Require Import Arith PeanoNat Permutation.
+Local Open Scope nat_scope.
+
+(* ---- the chunks are a partition (circuit evaluation: out[..output_size].chunks_mut(div_ceil(output_size, threads))) ---- *)
+Theorem C20_chunks_partition : forall items threads : nat,
+  1 <= items -> 1 <= threads ->
+  exists cs : list (list nat),
+    chunks items threads = Some cs /\
+    length cs <= threads /\
+    (forall ch, In ch cs -> ch <> []) /\
+    concat cs = seq 0 items /\
+    (forall i j x, i <> j -> In x (nth i cs []) -> ~ In x (nth j cs [])) /\
+    (forall x, 0 <= x < 0 + items ->
+       exists i, i < length cs /\ In x (nth i cs []) /\ forall i', In x (nth i' cs []) -> i' = i).
+Proof. exact chunks_partition. Qed.
+Print Assumptions C20_chunks_partition.
+
+(* ---- same for the partial preparation res.bits[bit_start..bit_start+bit_count] ---- *)
+Theorem C20_chunks_partition_prepare : forall threads bits bit_start bit_count : nat,
+  1 <= bit_count -> 1 <= threads -> bit_start + bit_count <= bits ->
+  exists cs : list (list nat),
+    chunks_prepare threads bits bit_start bit_count = Some cs /\
+    length cs <= threads /\
+    (forall ch, In ch cs -> ch <> []) /\
+    concat cs = seq bit_start bit_count /\
+    (forall i j x, i <> j -> In x (nth i cs []) -> ~ In x (nth j cs [])) /\
+    (forall x, bit_start <= x < bit_start + bit_count ->
+       exists i, i < length cs /\ In x (nth i cs []) /\ forall i', In x (nth i' cs []) -> i' = i).
+Proof. exact chunks_prepare_partition. Qed.
+Print Assumptions C20_chunks_partition_prepare.
+
+(* ---- the index formulas: the argument index of every item is the absolute position of the slot it writes, and
+        thread 0, thread 1, ... together enumerate base, base+1, ... exactly once ---- *)
+Theorem C20_index_formula_enumerates : forall threads items : nat,
+  1 <= items -> 1 <= threads ->
+  exists w : list (list item),
+    eval_work threads items = Some w /\
+    length w <= threads /\
+    map (map snd) w = map (map fst) w /\
+    concat (map (map snd) w) = seq 0 items /\
+    concat w = map (fun j => (j, j)) (seq 0 items).
+Proof. exact index_formula_eval. Qed.
+Print Assumptions C20_index_formula_enumerates.
+
+Theorem C20_index_formula_enumerates_prepare : forall threads bits bit_start bit_count : nat,
+  1 <= bit_count -> 1 <= threads -> bit_start + bit_count <= bits ->
+  exists w : list (list item),
+    prepare_work threads bits bit_start bit_count = Some w /\
+    length w <= threads /\
+    map (map snd) w = map (map fst) w /\
+    concat (map (map snd) w) = seq bit_start bit_count /\
+    concat w = map (fun j => (j, j)) (seq bit_start bit_count).
+Proof. exact index_formula_prepare. Qed.
+Print Assumptions C20_index_formula_enumerates_prepare.
+
+(* ---- scratch windows of split_mut: aligned, of the requested length, inside the arena, pairwise disjoint ---- *)
+Theorem C20_scratch_windows_disjoint :
+  forall (addr len per : Z) (threads : nat) (ws : list (Z * Z)) (rest : Z * Z),
+    (0 <= len)%Z -> (1 <= per)%Z ->
+    split_mut addr len threads per = Some (ws, rest) ->
+    length ws = threads /\
+    (forall i, i < threads ->
+       let w := nth i ws (0, 0)%Z in
+       (fst w mod 64 = 0 /\ snd w = per /\ addr <= fst w /\ fst w + snd w <= addr + len)%Z) /\
+    (forall i j, i < j -> j < threads ->
+       (fst (nth i ws (0, 0)) + snd (nth i ws (0, 0)) <= fst (nth j ws (0, 0)))%Z) /\
+    (forall i, i < threads -> (fst (nth i ws (0, 0)) + snd (nth i ws (0, 0)) <= fst rest)%Z) /\
+    (addr <= fst rest /\ 0 <= snd rest /\ fst rest + snd rest = addr + len)%Z.
+Proof. exact scratch_windows_disjoint. Qed.
+Print Assumptions C20_scratch_windows_disjoint.
+
+(* the split does not panic when the arena offers threads * round64(per_thread) aligned bytes ... *)
+Theorem C20_scratch_split_succeeds : forall (addr len per : Z) (threads : nat),
+  (0 <= len)%Z -> (0 <= per)%Z -> (Z.of_nat threads * round64 per <= available addr len)%Z ->
+  exists ws r, split_mut addr len threads per = Some (ws, r).
+Proof. exact split_mut_enough. Qed.
+Print Assumptions C20_scratch_split_succeeds.
+
+(* ... in particular the assertion made by the code (available >= threads * per_thread) suffices when per_thread % 64 = 0 *)
+Theorem C20_scratch_assert_enough_when_aligned : forall (addr len per : Z) (threads : nat),
+  (0 <= len)%Z -> (0 <= per)%Z -> (per mod 64 = 0)%Z -> (Z.of_nat threads * per <= available addr len)%Z ->
+  exists ws r, split_mut addr len threads per = Some (ws, r).
+Proof. exact split_mut_assert_enough_aligned. Qed.
+Print Assumptions C20_scratch_assert_enough_when_aligned.
+
+(* ... and does NOT suffice in general: the documented precondition passes, a later take panics *)
+Theorem C20_scratch_assert_enough_refuted :
+  exists addr len per threads,
+    (0 <= len)%Z /\ (1 <= per)%Z /\ (Z.of_nat threads * per <= available addr len)%Z /\
+    split_loop threads addr len per = None /\ split_mut addr len threads per = None.
+Proof. exact split_mut_assert_not_enough. Qed.
+Print Assumptions C20_scratch_assert_enough_refuted.
+
+(* per_thread = 0 is excluded above for a reason: a zero-length window can lie outside a tiny arena *)
+Theorem C20_scratch_zero_len_window_inside_refuted :
+  exists addr len ws r, split_mut addr len 1 0 = Some (ws, r) /\ (addr + len < fst (nth 0 ws (0, 0)))%Z.
+Proof. exact zero_len_window_outside. Qed.
+Print Assumptions C20_scratch_zero_len_window_inside_refuted.
+
+(* ---- every interleaving gives the outputs of the sequential single-thread run (any two thread counts, any two
+        complete schedules, any initial scratch contents) ---- *)
+Theorem C20_any_schedule_eq_sequential :
+  forall (V Sc : Type) (g : nat -> Sc -> V * Sc) (f : nat -> V),
+    (forall i s, fst (g i s) = f i) ->
+    forall (zero : V) (threads threads' out_len output_size : nat) (init : nat -> V)
+           (scr0 scr0' : nat -> Sc) (sched sched' : list nat) (o o' : nat -> V),
+      eval_mt V Sc g zero threads out_len output_size init scr0 sched = Some o ->
+      eval_mt V Sc g zero threads' out_len output_size init scr0' sched' = Some o' ->
+      forall j, o j = o' j.
+Proof. exact eval_any_schedule_eq_sequential. Qed.
+Print Assumptions C20_any_schedule_eq_sequential.
+
+Theorem C20_any_schedule_eq_sequential_prepare :
+  forall (V Sc : Type) (g : nat -> Sc -> V * Sc) (f : nat -> V),
+    (forall i s, fst (g i s) = f i) ->
+    forall (zero : V) (threads threads' bits bit_start bit_count : nat) (init : nat -> V)
+           (scr0 scr0' : nat -> Sc) (sched sched' : list nat) (o o' : nat -> V),
+      prepare_mt V Sc g zero threads bits bit_start bit_count init scr0 sched = Some o ->
+      prepare_mt V Sc g zero threads' bits bit_start bit_count init scr0' sched' = Some o' ->
+      forall j, o j = o' j.
+Proof. exact prepare_any_schedule_eq_sequential. Qed.
+Print Assumptions C20_any_schedule_eq_sequential_prepare.
+
+(* ---- closed form of every complete run, including the zero fill outside the active range ---- *)
+Theorem C20_tail_zeroed :
+  forall (V Sc : Type) (g : nat -> Sc -> V * Sc) (f : nat -> V),
+    (forall i s, fst (g i s) = f i) ->
+    forall (zero : V) (threads out_len output_size : nat) (init : nat -> V) (scr0 : nat -> Sc)
+           (sched : list nat) (o : nat -> V),
+      eval_mt V Sc g zero threads out_len output_size init scr0 sched = Some o ->
+      1 <= threads /\ 1 <= output_size <= out_len /\
+      forall j, o j = if j <? output_size then f j else if j <? out_len then zero else init j.
+Proof. exact eval_mt_closed. Qed.
+Print Assumptions C20_tail_zeroed.
+
+Theorem C20_tail_zeroed_prepare :
+  forall (V Sc : Type) (g : nat -> Sc -> V * Sc) (f : nat -> V),
+    (forall i s, fst (g i s) = f i) ->
+    forall (zero : V) (threads bits bit_start bit_count : nat) (init : nat -> V) (scr0 : nat -> Sc)
+           (sched : list nat) (o : nat -> V),
+      prepare_mt V Sc g zero threads bits bit_start bit_count init scr0 sched = Some o ->
+      1 <= threads /\ 1 <= bit_count /\ bit_start + bit_count <= bits /\
+      forall j, o j = if (bit_start <=? j) && (j <? bit_start + bit_count) then f j
+                      else if j <? bits then zero else init j.
+Proof. exact prepare_mt_closed. Qed.
+Print Assumptions C20_tail_zeroed_prepare.
+
+(* ---- complete executions exist for every thread count under the guard (the statements above are not vacuous) ---- *)
+Theorem C20_schedule_exists :
+  forall (V Sc : Type) (g : nat -> Sc -> V * Sc) (zero : V) (threads out_len output_size : nat)
+         (init : nat -> V) (scr0 : nat -> Sc),
+    1 <= threads -> 1 <= output_size <= out_len ->
+    exists sched o, eval_mt V Sc g zero threads out_len output_size init scr0 sched = Some o.
+Proof. exact eval_schedule_exists. Qed.
+Print Assumptions C20_schedule_exists.
+
+Theorem C20_schedule_exists_prepare :
+  forall (V Sc : Type) (g : nat -> Sc -> V * Sc) (zero : V) (threads bits bit_start bit_count : nat)
+         (init : nat -> V) (scr0 : nat -> Sc),
+    1 <= threads -> 1 <= bit_count -> bit_start + bit_count <= bits ->
+    exists sched o, prepare_mt V Sc g zero threads bits bit_start bit_count init scr0 sched = Some o.
+Proof. exact prepare_schedule_exists. Qed.
+Print Assumptions C20_schedule_exists_prepare.
+
+(* ---- the guard: degenerate inputs have no run (the Rust code panics) ---- *)
+Theorem C20_degenerate_inputs_panic :
+  forall (V Sc : Type) (g : nat -> Sc -> V * Sc) (zero : V) (threads out_len output_size : nat)
+         (init : nat -> V) (scr0 : nat -> Sc) (sched : list nat),
+    threads = 0 \/ output_size = 0 \/ out_len < output_size ->
+    eval_mt V Sc g zero threads out_len output_size init scr0 sched = None.
+Proof. exact eval_mt_guard. Qed.
+Print Assumptions C20_degenerate_inputs_panic.
+
+Theorem C20_degenerate_inputs_panic_prepare :
+  forall (V Sc : Type) (g : nat -> Sc -> V * Sc) (zero : V) (threads bits bit_start bit_count : nat)
+         (init : nat -> V) (scr0 : nat -> Sc) (sched : list nat),
+    threads = 0 \/ bit_count = 0 \/ bits < bit_start + bit_count ->
+    prepare_mt V Sc g zero threads bits bit_start bit_count init scr0 sched = None.
+Proof. exact prepare_mt_guard. Qed.
+Print Assumptions C20_degenerate_inputs_panic_prepare.
+
+(* ---- no work item is skipped or executed twice; every thread executes exactly its chunk, in program order ---- *)
+Theorem C20_each_item_once :
+  forall (V Sc : Type) (g : nat -> Sc -> V * Sc) (f : nat -> V),
+    (forall i s, fst (g i s) = f i) ->
+    forall (threads output_size : nat) (init : nat -> V) (scr0 : nat -> Sc) (sched : list nat) (st : state V Sc),
+      run_mt V Sc g (eval_work threads output_size) init scr0 sched = Some st ->
+      Permutation (map snd (trace V Sc st)) (map (fun j => (j, j)) (seq 0 output_size)) /\
+      NoDup (map snd (trace V Sc st)) /\
+      length (trace V Sc st) = output_size /\
+      exists cs, chunks output_size threads = Some cs /\
+        forall t, map snd (filter (fun e => fst e =? t) (trace V Sc st)) = map (fun j => (j, j)) (nth t cs []).
+Proof. exact eval_each_item_once. Qed.
+Print Assumptions C20_each_item_once.
+
+Theorem C20_each_item_once_prepare :
+  forall (V Sc : Type) (g : nat -> Sc -> V * Sc) (f : nat -> V),
+    (forall i s, fst (g i s) = f i) ->
+    forall (threads bits bit_start bit_count : nat) (init : nat -> V) (scr0 : nat -> Sc) (sched : list nat)
+           (st : state V Sc),
+      run_mt V Sc g (prepare_work threads bits bit_start bit_count) init scr0 sched = Some st ->
+      Permutation (map snd (trace V Sc st)) (map (fun j => (j, j)) (seq bit_start bit_count)) /\
+      NoDup (map snd (trace V Sc st)) /\
+      length (trace V Sc st) = bit_count /\
+      exists cs, chunks_prepare threads bits bit_start bit_count = Some cs /\
+        forall t, map snd (filter (fun e => fst e =? t) (trace V Sc st)) = map (fun j => (j, j)) (nth t cs []).
+Proof. exact prepare_each_item_once. Qed.
+Print Assumptions C20_each_item_once_prepare.
+
+(* ---- the hypotheses are satisfiable: concrete non-trivial instances ---- *)
+(* threads does not divide items *)
+Example C20_ex_chunks_32_5 :
+  chunks 32 5 = Some [seq 0 7; seq 7 7; seq 14 7; seq 21 7; seq 28 4].
+Proof. vm_compute. reflexivity. Qed.
+(* fewer chunks than threads: 12 threads requested, 11 chunks of 3 (last of 2): one scratch window stays idle *)
+Example C20_ex_chunks_32_12 :
+  option_map (@length (list nat)) (chunks 32 12) = Some 11.
+Proof. vm_compute. reflexivity. Qed.
+(* threads exceed the items *)
+Example C20_ex_chunks_3_8 : chunks 3 8 = Some [[0]; [1]; [2]].
+Proof. vm_compute. reflexivity. Qed.
+Example C20_ex_prepare_5_7_3 : chunks_prepare 3 32 5 7 = Some [[5; 6; 7]; [8; 9; 10]; [11]].
+Proof. vm_compute. reflexivity. Qed.
+(* the guards are tight *)
+Example C20_ex_guard : chunks 0 4 = None /\ chunks 4 0 = None /\ chunks_prepare 2 32 30 3 = None /\ chunks_prepare 2 32 4 0 = None.
+Proof. vm_compute. repeat split; reflexivity. Qed.
+(* a complete run with scratch-dependent scratch updates but scratch-independent results, two different schedules *)
+Example C20_ex_run :
+  let g := fun (i : nat) (s : nat) => (Z.of_nat (i * i), s + i + 1) in
+  exists o o',
+    eval_mt Z nat g 0%Z 3 7 5 (fun _ => (-7)%Z) (fun t => t) [0; 1; 2; 0; 1] = Some o /\
+    eval_mt Z nat g 0%Z 2 7 5 (fun _ => (-7)%Z) (fun t => 9 * t) [1; 1; 0; 0; 0] = Some o' /\
+    map o (seq 0 8) = [0; 1; 4; 9; 16; 0; 0; -7]%Z /\ map o' (seq 0 8) = map o (seq 0 8).
+Proof. eexists _, _. vm_compute. repeat split; reflexivity. Qed.
+Example C20_ex_hyp_g : forall i s : nat, fst ((fun (i : nat) (s : nat) => (Z.of_nat (i * i), s + i + 1)) i s) = Z.of_nat (i * i).
+Proof. reflexivity. Qed.
+Example C20_ex_split :
+  split_mut 5 1000 3 (200)%Z = Some ([(64, 200); (320, 200); (576, 200)], (776, 229))%Z.
+Proof. vm_compute. reflexivity. Qed.
